@@ -36,6 +36,9 @@ def _attrs(a):
             from spyne.protocol.soap import Soap11
             out['prot_attrs'] = {Soap11: dict(v)}
             continue
+        if k in ('child_attrs', 'child_attrs_all'):
+            out[k] = {fn: _attrs(fa) for fn, fa in v.items()} if k == 'child_attrs' else _attrs(v)
+            continue
         if v == 'unbounded':
             v = decimal.Decimal('inf')
         else:
